@@ -116,7 +116,12 @@ class _STIXBase(collections.abc.Mapping):
             for m in self.get('granular_markings', []):
                 validate(self, m.get('selectors'))
 
-        if 'created' in self._properties and 'modified' in self._properties:
+        # (on STIX 2.0 File observables "created" and "modified" are file times,
+        # which may be in any order)
+        if (
+            'created' in self._properties and 'modified' in self._properties
+            and not isinstance(self, _Observable)
+        ):
             created = self.get('created')
             modified = self.get('modified')
             if created and modified and modified < created:
